@@ -144,6 +144,15 @@ theorem opRun_run (s : St α) (ops : List Op) : ∃ ls, opRun s ops = run s ls :
     obtain ⟨l₂, h₂⟩ := ih (opStep s op)
     exact ⟨l₁ ++ l₂, by rw [run_append, ← h₁, ← h₂]; rfl⟩
 
+/-- the waker assignment is the same after any task-level operations -/
+theorem opRun_grp (s : St α) (ops : List Op) : (opRun s ops).grp = s.grp := by
+  obtain ⟨ls, h⟩ := opRun_run s ops
+  rw [h, run_grp]
+
+theorem pollTask_grp (s : St α) (c : Task) : (pollTask s c).1.grp = s.grp := by
+  obtain ⟨ls, _, h⟩ := pollTask_run s c
+  rw [h, run_grp]
+
 /-! ### fuel -/
 
 theorem pollLoop_fuel (fuel : Nat) (s : St α) (c : Task)
@@ -202,7 +211,7 @@ theorem pollNext_eq_syncNext {s : St α} (c : Task) (hs : NoPend s) :
     pollNext s c = ((syncNext s c).1, .ready (syncNext s c).2) ∧ NoPend (syncNext s c).1 := by
   obtain ⟨h0, he, hp⟩ := hs
   unfold pollNext syncNext pollNextItem
-  simp only [poll_eq_next s.src c h0 he]
+  simp only [poll_eq_next s.src (s.grp c) h0 he]
   have hn := next_rest s.src
   split
   · exact ⟨rfl, h0, he, hp⟩
@@ -426,8 +435,8 @@ theorem opInv_opStep {D : Nat} {s : St α} (op : Op) (h : OpInv D s) :
     · rename_i src' t _
       refine ⟨?_, h.2⟩
       intro c hc
-      by_cases hct : c = t
-      · subst hct; simp at hc ⊢; exact h.1 c hc
+      by_cases hct : s.grp c = t
+      · simp [hct] at hc ⊢; exact h.1 c hc
       · simp [hct] at hc ⊢; exact h.1 c hc
     · exact h
   | poll c =>
